@@ -5,7 +5,7 @@
    in the harness by eval / ast.literal_eval of the implementation's output (recorded assumption). *)
 From RichModel Require Import Prelude Wire Cells Pretty SpecPretty.
 From RichGen Require Import PrettyBraces.
-From RichProofs Require Import CellsP PrettyP PrettyP2 PrettyP3 PrettyP4 PrettyP5.
+From RichProofs Require Import CellsP PrettyP PrettyP2 PrettyP3 PrettyP4 PrettyP5 PrettyP6.
 
 Definition L1 (s : string) : V := Leaf (lit s, None).
 Definition tup123 : V := Seq KTuple [] [L1 "1"; L1 "2"; L1 "3"].
@@ -81,11 +81,77 @@ Theorem C16_one_line_is_node_str : forall v ml ms,
 Proof. intros v ml ms. exact (canon_str_node (bf_of BRACES) braces_gen_s braces_gen_m ml ms v). Qed.
 Print Assumptions C16_one_line_is_node_str.
 
-(* ... and for list / tuple / dict / set / frozenset over leaves it is Python's repr() (py_repr is the spec of
-   repr for these types; it is compared with the real repr() on every generated plain value) *)
-Theorem C16_one_line_is_repr : forall v r, leaves_ok v = true -> py_repr v = Some r -> canon_str None None v = r.
+(* ... and it is Python's repr() -- py_repr is the spec of repr(), compared with the real repr() on every
+   generated value it is defined for -- for list / tuple / dict / set / frozenset, and also for array (empty or not),
+   defaultdict (empty or not), non-empty deque (without maxlen) and the empty Counter.  The only hypothesis: no
+   mapping key has an empty repr (true of every built-in literal; see the Example for why it is needed). *)
+Theorem C16_one_line_is_repr : forall v r, keys_nonempty v = true -> py_repr v = Some r -> canon_str None None v = r.
 Proof. exact canon_is_repr. Qed.
 Print Assumptions C16_one_line_is_repr.
+
+(* the hypothesis cannot be dropped: Node.iter_tokens tests `if self.key_repr:`, so a key whose repr is the
+   empty string loses its ": " -- rich prints {1} where repr() prints {: 1} *)
+Example C16_one_line_is_repr_needs_keys :
+  let v := Map KDict [] [(([], None), L1 "1")] in
+  py_repr v = Some (lit "{: 1}") /\ canon_str None None v = lit "{1}"
+  /\ pretty_repr v 80 4 None None false = Ok (lit "{1}").
+Proof. vm_compute. repeat split; reflexivity. Qed.
+(* ... whereas an empty repr of a non-key leaf is harmless (no hypothesis on leaves) *)
+Example C16_one_line_is_repr_empty_leaf :
+  canon_str None None (Seq KList [] [Leaf ([], None); L1 "2"]) = lit "[, 2]"
+  /\ py_repr (Seq KList [] [Leaf ([], None); L1 "2"]) = Some (lit "[, 2]").
+Proof. vm_compute. split; reflexivity. Qed.
+
+(* what pretty prints on one line for EVERY container kind (deque, Counter, defaultdict, array included):
+   open brace, the items' one-line forms joined by ", " (a one-element tuple: item then ","), close brace;
+   the empty container is the third string of the table *)
+Theorem C16_one_line_seq : forall k a x r ms,
+  canon_str None ms (Seq k a (x :: r))
+  = fst (fst (braces_spec_s k a)) ++ items_text (is_tup k) (map (canon_str None ms) (x :: r))
+      ++ snd (fst (braces_spec_s k a)).
+Proof. exact canon_str_seq. Qed.
+Print Assumptions C16_one_line_seq.
+
+Theorem C16_one_line_map : forall k a x r ms,
+  canon_str None ms (Map k a (x :: r))
+  = fst (fst (braces_spec_m k a))
+      ++ items_text false (map (fun kv => tstr (keytoks (to_repr ms (fst kv))) ++ canon_str None ms (snd kv)) (x :: r))
+      ++ snd (fst (braces_spec_m k a)).
+Proof. exact canon_str_map. Qed.
+Print Assumptions C16_one_line_map.
+
+Theorem C16_one_line_empty : forall ms,
+  (forall k a, canon_str None ms (Seq k a []) = snd (braces_spec_s k a)) /\
+  (forall k a, canon_str None ms (Map k a []) = snd (braces_spec_m k a)).
+Proof. intros ms. split; intros; [apply canon_str_seq_empty|apply canon_str_map_empty]. Qed.
+Print Assumptions C16_one_line_empty.
+
+(* the typed containers next to Python's repr():  same text for array, defaultdict, non-empty deque ... *)
+Example C16_typed_containers_same_as_repr :
+  canon_str None None (Seq KArray (lit "'i'") [L1 "1"; L1 "2"]) = lit "array('i', [1, 2])"
+  /\ py_repr (Seq KArray (lit "'i'") [L1 "1"; L1 "2"]) = Some (lit "array('i', [1, 2])")
+  /\ canon_str None None (Seq KArray (lit "'d'") []) = lit "array('d')"
+  /\ py_repr (Seq KArray (lit "'d'") []) = Some (lit "array('d')")
+  /\ canon_str None None (Map KDefaultdict (lit "<class 'list'>") [((lit "'a'", None), Seq KList [] [])])
+     = lit "defaultdict(<class 'list'>, {'a': []})"
+  /\ py_repr (Map KDefaultdict (lit "None") []) = Some (lit "defaultdict(None, {})")
+  /\ canon_str None None (Map KDefaultdict (lit "None") []) = lit "defaultdict(None, {})"
+  /\ canon_str None None (Seq KDeque [] [L1 "1"; Seq KDeque [] [L1 "2"]]) = lit "deque([1, deque([2])])"
+  /\ py_repr (Seq KDeque [] [L1 "1"; Seq KDeque [] [L1 "2"]]) = Some (lit "deque([1, deque([2])])")
+  /\ canon_str None None (Map KCounter [] []) = lit "Counter()".
+Proof. vm_compute. repeat split; reflexivity. Qed.
+(* ... and different BY DESIGN (both texts evaluate to equal values; validated by eval in the harness):
+   - the empty deque: rich prints deque(), repr() prints deque([]) -- py_repr is undefined there;
+   - deque(.., maxlen=n): repr() appends ", maxlen=n", rich does not print it (the value evaluated back
+     compares equal, deque.__eq__ ignores maxlen, but the bound is lost) -- outside the model's values;
+   - Counter: rich lists items in insertion order, Counter.__repr__ by decreasing count;
+   - a defaultdict with a factory prints <class 'list'> like repr(), which is not an expression. *)
+Example C16_typed_containers_by_design :
+  canon_str None None (Seq KDeque [] []) = lit "deque()" /\ py_repr (Seq KDeque [] []) = None
+  /\ canon_str None None (Map KCounter [] [((lit "'a'", None), L1 "1"); ((lit "'b'", None), L1 "2")])
+     = lit "Counter({'a': 1, 'b': 2})"
+  /\ py_repr (Map KCounter [] [((lit "'a'", None), L1 "1"); ((lit "'b'", None), L1 "2")]) = None.
+Proof. vm_compute. repeat split; reflexivity. Qed.
 
 Example C16_one_line_nonvacuous :
   canon_str None None (Map KDict [] [((lit "'a'", None), Seq KSet [] []); ((lit "'b'", None), Seq KTuple [] [L1 "1"])])
@@ -94,15 +160,32 @@ Example C16_one_line_nonvacuous :
      = Some (lit "{'a': set(), 'b': (1,)}").
 Proof. vm_compute. split; reflexivity. Qed.
 
-(* (4) expanded_layout, on the lines the printer produces (root at indentation 0):
-   (a) a line that still carries a non-empty container fits the width (and expand_all is off);
-   (b) the indentation of every line is spaces only and the root's plus a whole number of indents.
-   PARTIAL: the string-level checker layout_b (one item per line; indentation = depth * indent_size;
-   a container is on one line iff that line fits) is evaluated on the implementation's output for every
-   generated case, and on the model by the examples below; the general theorem
-     forall v .., leaves_ok v = true -> pretty_repr v W ind ml ms ea = Ok s -> layout_b W ind ea ml ms v s = true
-   is not proved (it needs split_nl (join_nl lines) = lines for newline-free reprs and a walk over rr). *)
-Theorem C16_expanded_layout_partial : forall W ind ea n,
+(* (4) expanded_layout: the string-level checker layout_b -- split the output at newlines and walk it along
+   the value: a non-empty container is on ONE physical line exactly when that line (indentation, key, one-line
+   form, trailing comma) fits the width and expand_all is off; otherwise its first line is the indentation and
+   `key: open brace`, every item follows on its own line(s) indented by exactly indent_size more (depth *
+   indent_size from the root), and the closing brace is on its own line at the container's indentation --
+   holds of EVERY output, for all values, widths, indents, max_length, max_string, expand_all.
+   Hypothesis: no repr contains a raw newline (repr() of str/bytes escapes it; the harness checks leaves_ok,
+   which implies it, on every case; the Example shows the statement is false without it). *)
+Theorem C16_expanded_layout : forall v W ind ml ms ea s, nl_free v = true ->
+  pretty_repr v W ind ml ms ea = Ok s -> layout_b W ind ea ml ms v s = true.
+Proof. exact expanded_layout. Qed.
+Print Assumptions C16_expanded_layout.
+
+Theorem C16_side_conditions_checked : forall v, leaves_ok v = true -> nl_free v = true /\ keys_nonempty v = true.
+Proof. intros v H. split; [exact (leaves_ok_nl_free v H)|exact (leaves_ok_keys_nonempty v H)]. Qed.
+Print Assumptions C16_side_conditions_checked.
+
+Example C16_expanded_layout_needs_nl_free :
+  let v := Seq KList [] [Leaf ([97; NL; 98], None)] in
+  nl_free v = false /\ exists s, pretty_repr v 80 4 None None false = Ok s /\ layout_b 80 4 false None None v s = false.
+Proof. split; [reflexivity|]. eexists. split; vm_compute; reflexivity. Qed.
+
+(* the same facts on the _Line level, for every Node tree (also ill-formed ones): a line that still carries a
+   non-empty container fits the width and expand_all is off; indentation is spaces only and a whole number
+   of indents *)
+Theorem C16_expanded_layout_lines : forall W ind ea n,
   Forall (fun l => line_fits W l /\ (expandable_node l <> None -> ea = false)
                    /\ all_sp (l_ws l) = true
                    /\ exists k : nat, l_ws l = concat (repeat (py_repeat SP ind) k))
@@ -114,7 +197,7 @@ Proof.
   rewrite Forall_forall in *. intros l Hl. destruct (A l Hl) as [A1 A2]. destruct (B l Hl) as [B1 B2].
   repeat split; assumption.
 Qed.
-Print Assumptions C16_expanded_layout_partial.
+Print Assumptions C16_expanded_layout_lines.
 
 Example C16_layout_nonvacuous :
   let v := Seq KList [] [L1 "1"; Seq KTuple [] [tup123]; Map KDict [] [((lit "'k'", None), Seq KList [] [])]] in
